@@ -315,7 +315,10 @@ pub fn generate(rng: &mut Rng, shape: &Shape) -> Program {
                 }
                 let bases: Vec<usize> = p.decls.iter().enumerate().filter(|(_, d)| matches!(d.kind, DKind::Struct | DKind::Class)).map(|(i, _)| i).collect();
                 let mut base_clause = String::new();
-                if !bases.is_empty() && rng.chance(1, 3) {
+                // a class with virtual methods, no bases and no destructor gets a full `__bindgen_vtable` struct
+                let virt = rng.chance(1, 3);
+                let plain_vtable = virt && rng.chance(2, 3);
+                if !bases.is_empty() && rng.chance(1, 3) && !plain_vtable {
                     let b = *rng.pick(&bases);
                     deps.insert(b);
                     base_clause = format!(" : public {}", p.type_ref(b));
@@ -328,7 +331,7 @@ pub fn generate(rng: &mut Rng, shape: &Shape) -> Program {
                 if rng.chance(1, 3) {
                     body.push_str("  static int f2();\n");
                 }
-                if rng.chance(1, 3) {
+                if virt {
                     // virtual methods: their signature types are needed by the vtable struct
                     let a = pick_type(&p, rng, &mut deps, true);
                     let r = pick_type(&p, rng, &mut deps, true);
@@ -342,7 +345,7 @@ pub fn generate(rng: &mut Rng, shape: &Shape) -> Program {
                     let a = pick_type(&p, rng, &mut deps, true);
                     body.push_str(&format!("  {base}({a} a);\n"));
                 }
-                if rng.chance(1, 4) {
+                if rng.chance(1, 4) && !plain_vtable {
                     body.push_str(&format!("  ~{base}();\n"));
                 }
                 if rng.chance(1, 4) {
